@@ -47,6 +47,8 @@ val max : nat -> nat -> nat
 
 val bool_dec : bool -> bool -> bool
 
+val eqb0 : bool -> bool -> bool
+
 type positive =
 | XI of positive
 | XO of positive
@@ -100,7 +102,7 @@ val skipn : nat -> 'a1 list -> 'a1 list
 
 val string_dec : char list -> char list -> bool
 
-val eqb0 : char list -> char list -> bool
+val eqb1 : char list -> char list -> bool
 
 val append : char list -> char list -> char list
 
@@ -796,3 +798,50 @@ val hook_keys : node -> sp list
 val sp_eqb : sp -> sp -> bool
 
 val missing_sites : site_cfg -> node -> node -> site list
+
+val mem_str0 : char list -> char list list -> bool
+
+val reserved_ident : char list -> node -> (char list * bool) option
+
+val let_names : char list -> node list -> char list list
+
+val has_dup : char list list -> bool
+
+type hctx = { h_decl : char list list option; h_crossed : bool;
+              h_assigned : char list list; h_live : char list list }
+
+type issue = char list * char list
+
+val hyg : char list -> hctx -> node -> issue list
+
+val unassigned_reads : char list -> char list list -> node -> issue list
+
+val user_idents : char list -> node -> char list list
+
+val block_let_names : char list -> node -> char list list
+
+val clash_between : char list -> node list -> node -> issue list
+
+val clashes : char list -> node -> issue list
+
+val hygiene_issues : char list -> node -> issue list
+
+type expected =
+| Exact of node
+| OmittedSum of node
+| Hole
+| Unspread of node
+
+val is_plus : node -> bool
+
+val expect_operand : node -> expected
+
+val expected_of_operation : node -> expected list option
+
+val simple_arg : char list -> node -> bool
+
+val match_args : char list -> expected list -> node list -> char list list
+
+val apply_spread_args : node -> bool
+
+val shape_issues : char list -> node -> char list list
